@@ -31,6 +31,7 @@ type step struct {
 	Burst int32  `json:"burst,omitempty"`
 }
 type scenario struct {
+	Twin  bool   `json:"twin,omitempty"`
 	ID    int    `json:"id"`
 	Qps   int32  `json:"qps"`
 	Burst int32  `json:"burst"`
@@ -49,12 +50,18 @@ type run struct {
 	Events []event `json:"events"`
 }
 
+var twin bool // (per scenario)
+
 func spec(q, b int32, other bool) proxyv1alpha1.FlowControl {
 	fc := proxyv1alpha1.FlowControl{Schemas: []proxyv1alpha1.FlowControlSchema{{Name: "s",
 		FlowControlSchemaConfiguration: proxyv1alpha1.FlowControlSchemaConfiguration{TokenBucket: &proxyv1alpha1.TokenBucketFlowControlSchema{QPS: q, Burst: b}}}}}
 	if other { // an unrelated schema is added / removed: must not refill or reset "s"
 		fc.Schemas = append(fc.Schemas, proxyv1alpha1.FlowControlSchema{Name: "other",
 			FlowControlSchemaConfiguration: proxyv1alpha1.FlowControlSchemaConfiguration{MaxRequestsInflight: &proxyv1alpha1.MaxRequestsInflightFlowControlSchema{Max: 3}}})
+	}
+	if twin { // a DIFFERENT schema whose name differs from "s" only in case, with a generous bucket of its own, listed after it
+		fc.Schemas = append(fc.Schemas, proxyv1alpha1.FlowControlSchema{Name: "S",
+			FlowControlSchemaConfiguration: proxyv1alpha1.FlowControlSchemaConfiguration{TokenBucket: &proxyv1alpha1.TokenBucketFlowControlSchema{QPS: 1000, Burst: 1000}}})
 	}
 	return fc
 }
@@ -67,6 +74,7 @@ func runScenario(t *testing.T, sc scenario) []run {
 		start := time.Now()
 		q, b := sc.Qps, sc.Burst
 		other := false
+		twin = sc.Twin
 		otherKind := func(kind string) proxyv1alpha1.FlowControl {
 			sch := proxyv1alpha1.FlowControlSchema{Name: "s"}
 			if kind == "exempt" {
